@@ -39,7 +39,7 @@ fn name_idx_of_k(k: i32) -> usize {
     ((k + 90_000) / 60_000) as usize
 }
 
-/// The scratch database on disk. All writes are atomic (temp + rename) and set a strictly increasing mtime.
+/// The scratch database on disk. All writes are atomic (temp + rename) and set a modification time never used before.
 pub struct World {
     root: PathBuf,
     backend: Backend,
@@ -79,13 +79,17 @@ impl World {
     }
     fn put(&mut self, path: PathBuf, bytes: &[u8]) -> std::io::Result<()> {
         self.mtime += 7;
+        // every write gets a modification time that no earlier write had, alternately later and *earlier* than the
+        // time before (files restored from a backup, cp -p, rsync -t: a changed file need not look newer)
+        let n = self.mtime - 1_000_000_000;
+        let stamp = if (n / 7) % 2 == 0 { 1_000_000_000 + n } else { 1_000_000_000 - n };
         let tmp = self.root.join(format!(".tmp-{}", self.mtime));
         std::fs::write(&tmp, bytes)?;
         if !cfg!(miri) {
             // (Miri has no futimens: under Miri the files keep their real modification times and the staleness
             // oracle is switched off; Miri judges memory safety and data races only)
             let f = std::fs::File::options().write(true).open(&tmp)?;
-            f.set_modified(SystemTime::UNIX_EPOCH + Duration::from_secs(self.mtime))?;
+            f.set_modified(SystemTime::UNIX_EPOCH + Duration::from_secs(stamp))?;
             drop(f);
         }
         std::fs::rename(&tmp, &path)
